@@ -1301,8 +1301,9 @@ def generate(rng, tier):
             c.update(psi=_gen_psi(rng, w, "dyadic"), rev=rng.random() < 0.5)
         cases.append(c)
     # the Pauli expansion of a generic 2^n x 2^n matrix has 4^n terms: n = 5 is the first register whose expansion reaches 1024
-    if big:  # (16 s in the library alone)
-        cases.append({"kind": "from_matrix", "m": _gen_matrix(rng, 5, True, "dense"), "exact": True, "form": "ndarray"})
+    # (5 - 16 s in the library alone, depending on the machine's load: one such matrix per quick run, of a cheap style)
+    cases.append({"kind": "from_matrix", "m": _gen_matrix(rng, 5, True, "dense" if big else rng.choice(["sparse", "int", "dense"])),
+                  "exact": True, "form": "ndarray"})
 
     # ---- dec2bin / bin2dec
     for _ in range(60 if big else 20):
